@@ -69,6 +69,7 @@ func FieldsFromStruct(t reflect.Type) TypesTable {
 
 	switch t.Kind() {
 	case reflect.Struct:
+		// Fields of embedded structs first, ...
 		for i := 0; i < t.NumField(); i++ {
 			f := t.Field(i)
 
@@ -81,7 +82,10 @@ func FieldsFromStruct(t reflect.Type) TypesTable {
 					}
 				}
 			}
-
+		}
+		// ... as the struct's own fields hide them, wherever they are declared.
+		for i := 0; i < t.NumField(); i++ {
+			f := t.Field(i)
 			types[f.Name] = Tag{Type: f.Type}
 		}
 	}
